@@ -473,6 +473,21 @@ fn rolled_key(p: &Pol, name: &str) -> Option<(String, u64)> {
 
 struct RollerMon { pol: Pol, written: Vec<u64>, lens: HashMap<u64, usize>, opened: bool, shared: bool }
 
+/// Monitor signature. Under an unremarkable configuration the signature names the kind of violation. Under one of
+/// three special configuration classes every violation of the roller clauses is attributed to that class (one
+/// signature per class; the message keeps the kind), so that a violation under an unremarkable configuration can
+/// never match a finding that needs a special one:
+/// * another roller in the same directory whose prefix is a prefix of this one's or vice versa (F15),
+/// * an empty `compressed_file_suffix` (F17b),
+/// * prefix/suffix text that the date/sequence regex can match (`.` followed by a digit, or a suffix starting with a digit) (F17a).
+fn signature(m: &RollerMon, kind: &str) -> String {
+  let stampy = |s: &str| { let c: Vec<char> = s.chars().collect(); c.windows(2).any(|w| w[0] == '.' && w[1].is_numeric()) };
+  if m.shared { "roller:shared-prefix-dir:rolled-file-deleted-within-retention-limit".to_string() }
+  else if m.pol.gz.as_ref().map_or(false, |g| g.0.is_empty()) { "roller:empty-compressed-suffix:rolled-file-destroyed".to_string() }
+  else if stampy(&format!("{}{}", m.pol.prefix, m.pol.suffix)) || m.pol.suffix.chars().next().map_or(false, |c| c.is_numeric()) { "roller:stamp-like-name-config:rolled-file-clobbered".to_string() }
+  else { format!("roller:{kind}") }
+}
+
 fn view_of(m: &RollerMon, l: &Listing) -> (Vec<((String, u64), Vec<u64>)>, Vec<u64>) {
   let mut rolled: BTreeMap<(String, u64), Vec<u64>> = BTreeMap::new();
   for (n, (recs, _, _)) in &l.files {
@@ -484,8 +499,8 @@ fn view_of(m: &RollerMon, l: &Listing) -> (Vec<((String, u64), Vec<u64>)>, Vec<u
 
 fn roller_check(tr: &mut Tr, fired: &mut BTreeSet<String>, m: &RollerMon, l: &Listing, r: usize) {
   let mut fail = |tr: &mut Tr, sig: &str, msg: String| {
-    let s = if m.shared { format!("roller:shared-prefix-dir:{sig}") } else { format!("roller:{sig}") };
-    if fired.insert(format!("{r}:{s}")) { tr.monitor(&s, &format!("roller {r}: {msg}")); }
+    let s = signature(m, sig);
+    if fired.insert(format!("{r}:{s}")) { tr.monitor(&s, &format!("roller {r}: [{sig}] {msg}")); }
   };
   // torn / malformed records in any file attributed to this roller
   for (n, (recs, _, ok)) in &l.files {
@@ -498,7 +513,13 @@ fn roller_check(tr: &mut Tr, fired: &mut BTreeSet<String>, m: &RollerMon, l: &Li
   let mut c: Vec<u64> = rolled.iter().flat_map(|x| x.1.iter().copied()).collect();
   c.extend(active);
   let w = &m.written;
-  if c.len() <= w.len() && w[w.len() - c.len()..] == c[..] { return; }
+  if c.len() <= w.len() && w[w.len() - c.len()..] == c[..] {
+    // a suffix: whatever is missing must have been deleted by retention, which leaves exactly `retain` files behind
+    if c.len() < w.len() && m.pol.retain.map_or(true, |n| (rolled.len() as u64) < n as u64) {
+      fail(tr, "record-lost-below-retention-limit", format!("{} of {} written records are gone although only {} rolled files exist (limit {:?})", w.len() - c.len(), w.len(), rolled.len(), m.pol.retain));
+    }
+    return;
+  }
   let set: BTreeSet<u64> = c.iter().copied().collect();
   if set.len() != c.len() { fail(tr, "record-duplicated", format!("retained files contain a record twice: {:?}", c)); return; }
   if c.iter().any(|x| !w.contains(x)) { fail(tr, "foreign-record", format!("retained files contain records this roller never wrote: {:?}", c)); return; }
@@ -590,8 +611,8 @@ fn run_roller_case(id: &str, header: &[String], ops: &[String], dir: &Path) -> S
       let deleted: Vec<_> = kb.keys().filter(|k| !ka.contains_key(*k)).collect();
       let created = ka.keys().any(|k| !kb.contains_key(k));
       let mut fail = |tr: &mut Tr, sig: &str, msg: String| {
-        let s = if m.shared { format!("roller:shared-prefix-dir:{sig}") } else { format!("roller:{sig}") };
-        if fired.insert(format!("{r}:{s}")) { tr.monitor(&s, &format!("roller {r}: {msg}")); }
+        let s = signature(m, sig);
+        if fired.insert(format!("{r}:{s}")) { tr.monitor(&s, &format!("roller {r}: [{sig}] {msg}")); }
       };
       if !deleted.is_empty() && m.pol.retain.map_or(true, |n| (ka.len() as u64) < n as u64) {
         fail(&mut tr, "rolled-file-deleted-within-retention-limit", format!("{:?} deleted by [{op}] although only {} rolled files remain (limit {:?})", deleted, ka.len(), m.pol.retain));
@@ -619,8 +640,11 @@ fn gen_roller_case(rng: &mut Rng, id: &str, dir: &Path) -> String {
     gz: rng.weighted(&[(5u32, None), (2, Some((".gz", 0))), (2, Some((".gz", 1))), (1, Some((".gz", 2))), (1, Some((".z", 1)))]).map(|g| (g.0.to_string(), g.1)),
   };
   let two = rng.chance(1, 6);
-  let pre0 = *rng.pick(&["app", "app", "a.b", "svc", "app.1"]);
-  let p0 = gen_pol(rng, pre0);
+  // (a prefix that the date/sequence regex matches is exercised only by findings/C20_F17.case: there the active file
+  // itself is "discovered" and may be unlinked while open, which the model's file system does not represent)
+  let pre0 = *rng.pick(&["app", "app", "a.b", "svc", "app.x"]);
+  let mut p0 = gen_pol(rng, pre0);
+  if rng.chance(1, 40) { p0.gz = Some((String::new(), rng.below(2) as u32)); }
   let mut pols = vec![p0];
   if two {
     let other = if rng.chance(1, 2) { format!("{}2", pols[0].prefix) } else { "zzz".to_string() };
